@@ -106,7 +106,7 @@ class Init(Contract):
         x = A['x']
         if not isinstance(x, SList):
             raise Unsupported('TT() of a non-list at line %d' % line)
-        if x.kind not in ('arr', 'any'):
+        if x.kind not in ('arr', 'arr5', 'any'):
             raise Unsupported('TT() of a list of %s at line %d' % (x.kind, line))
         from vt.e1.contract import SpecView
         S = SpecView(A, {'x': x.snapshot()}, state.mark, {}, state)
